@@ -9,6 +9,7 @@ slices measured with a counting `bytes` subclass).  Also: `Utf8.decodeReplace`/`
 and the listener's size guard.
 
 Stage O (the property's own sentences on the implementation's observations):
+  (also for two live objects decoded in interleaved order: each datagram is judged on its own);
   never raises; counters within the budget predicate `DecodeSpec.withinBudget` (evaluated by the
   Lean driver); a valid result only has names of <= 253 characters; if the strict RFC 1035 parser
   accepts, only supported types occur and every label can be written back (`reencodable`), the
@@ -911,6 +912,122 @@ def _short(v):
     return s if len(s) < 600 else s[:600] + "..."
 
 
+# ------------------------------------------------------------------------------------------
+# interleaved objects: the sentence is about each datagram, whatever else is decoded meanwhile
+
+SCHEDULES = [
+    ("newA", "newB", "ansA", "ansB"),
+    ("newA", "newB", "ansB", "ansA"),
+    ("newA", "ansA", "newB", "ansA", "ansB"),
+    ("newA", "newB", "ansA", "newB", "ansB", "ansA"),
+]
+
+
+def relabel(p, w, rng):
+    """the same message with every label replaced by a different one of the same length: same offsets, same pointers,
+    different names -- what a second datagram looks like to state keyed by offset"""
+    q = bytearray(p)
+    for at in w.label_bytes:
+        if at < len(q) and 0 < q[at] < 64 and at + 1 + q[at] <= len(q):
+            for i in range(at + 1, at + 1 + q[at]):
+                q[i] = rng.choice(b"klmnopqrstuvwxyz")
+    return bytes(q)
+
+
+def run_schedule(a, b, schedule):
+    """-> {"A": view, "B": view} after the schedule; a view is obj_view + status/exc of the last answers() call"""
+    inc = impl()["inc"]
+    objs, out = {}, {}
+    data = {"A": a, "B": b}
+    for step in schedule:
+        op, who = step[:3], step[3]
+        try:
+            if op == "new":
+                objs[who] = inc.DNSIncoming(data[who], *LISTENER_ARGS)
+            else:
+                ans = objs[who].answers()
+                out[who] = dict(obj_view(objs[who], ans), status="ok", exc=None)
+        except Exception as e:  # noqa: BLE001
+            out[who] = {"status": "raised", "exc": exc_name(e), "valid": None, "qu": None, "hdr": None, "questions": (), "records": ()}
+    return out
+
+
+def check_interleaved(res, a, b, schedule, views, lines_a, lines_b):
+    for who, data, (ml, sl) in (("A", a, lines_a), ("B", b, lines_b)):
+        v = views.get(who)
+        if v is None:
+            continue
+        res.evaluations += 1
+        case = {"interleave": {"A": C.hx(a), "B": C.hx(b), "schedule": list(schedule), "which": who}, "len": len(data), "stream": "interleave"}
+        if v["status"] != "ok":
+            res.violate("C02:escape:%s" % v["exc"], "%s escapes while decoding datagram %s of an interleaved pair" % (v["exc"], who), case)
+            continue
+        obj = {k: v[k] for k in ("valid", "qu", "hdr", "questions", "records")}
+        strict = parse_strict(sl) if sl is not None else None
+        py = _py_decode(data, "strict")
+        ref = None
+        if strict is not None and strict["supported"] and strict["reencodable"]:
+            ref = strict
+        elif sl is None and py is not None and py["supported"] and _reenc_ok(py["names"]):
+            ref = py
+        if ref is not None:
+            res.count("interleave:strict-accepted-in-scope")
+            if not (obj["valid"] and obj["hdr"] == ref["hdr"] and obj["questions"] == ref["questions"] and obj["records"] == ref["records"]):
+                res.violate("C02:strict-disagrees:interleaved", "the strict RFC 1035 parser accepts datagram %s, but decoded while another DNSIncoming object exists "
+                            "(schedule %s) the library's questions/records differ from the strict parser's" % (who, ",".join(schedule)), case)
+            else:
+                res.nontriv(("interleave-agree", tuple(schedule), who))
+        if ml is not None:
+            try:
+                mod = parse_run(ml)
+            except Exception as ex:  # noqa: BLE001
+                res.disagree("interleave", case, "parsed", "unreadable model line: %s" % ex)
+                continue
+            if mod["status"] != "ok" or mod["obj"] != obj:
+                res.disagree("interleave", case, _short(obj), _short(mod["obj"]))
+
+
+def interleave_stream(res, rng, tier, driver_ok):
+    """pairs of datagrams decoded by two live objects under several schedules; every datagram is judged on its own"""
+    pairs = []
+    n = 60 if tier == "quick" else 1500
+    for i in range(n):
+        k = rng.random()
+        if k < 0.5:
+            p, w = gen_valid(rng)           # may have 0 questions (eager) or several (lazy records)
+            pairs.append((p, relabel(p, w, rng)))
+        elif k < 0.8:
+            p, nq, _d = many_entries_packet(rng, rng.choice([1, 1, 2, 5]), [rng.choice([1, 3, 8]), rng.choice([0, 2]), rng.choice([0, 2])],
+                                            owner=rng.choice(["pointer", "mixed"]))
+            q, _nq, _d2 = many_entries_packet(rng, nq, _d, owner="pointer")
+            pairs.append((p, q))
+        else:
+            p1, _w1 = gen_valid(rng)
+            p2, w2 = gen_valid(rng)
+            pairs.append((p1, mutate(rng, p2, w2) if rng.random() < 0.5 else p2))
+    # a fixed pair: question a.local / answer owned by a pointer to it, against the same bytes with other letters
+    fa = (struct.pack(">HHHHHH", 0, 0x8400, 1, 1, 0, 0) + b"\x01a\x05local\x00" + struct.pack(">HH", 12, 1)
+          + b"\xc0\x0c" + struct.pack(">HHIH", 12, 1, 120, 4) + b"\x01b\xc0\x0c")
+    fb = fa.replace(b"\x01a\x05local", b"\x01z\x05LOCAL").replace(b"\x01b\xc0", b"\x01y\xc0")
+    pairs.insert(0, (fa, fb))
+    lines = []
+    if driver_ok:
+        try:
+            for a, b in pairs:
+                lines += ["c02 " + C.hx(a), "c02s " + C.hx(a), "c02 " + C.hx(b), "c02s " + C.hx(b)]
+            lines = C.run_driver(lines)
+        except C.DriverUnavailable as ex:
+            res.notes.append("driver unavailable: %s" % ex)
+            lines = []
+    for i, (a, b) in enumerate(pairs):
+        la = (lines[4 * i], lines[4 * i + 1]) if lines else (None, None)
+        lb = (lines[4 * i + 2], lines[4 * i + 3]) if lines else (None, None)
+        for schedule in SCHEDULES:
+            views = run_schedule(a, b, schedule)
+            check_interleaved(res, a, b, schedule, views, la, lb)
+    res.count("stream:interleave", len(pairs) * len(SCHEDULES))
+
+
 def utf8_stream(res, rng, tier, driver_ok):
     cases = []
     for n in range(0, 4):
@@ -1127,6 +1244,7 @@ def run(ctx):
             chunk = []
     if chunk:
         driver_ok = process(res, chunk, driver_ok, base)
+    interleave_stream(res, rng, tier, driver_ok)
     utf8_stream(res, rng, tier, driver_ok)
     guard_stream(res, driver_ok)
     res.notes.append("largest message on which the library agreed with the strict parser: %d records, %d questions"
@@ -1142,6 +1260,23 @@ def run(ctx):
 
 def replay(body):
     case = body.get("case", body)
+    if "interleave" in case:
+        il = case["interleave"]
+        a = bytes.fromhex(il["A"]) if il["A"] != "-" else b""
+        b = bytes.fromhex(il["B"]) if il["B"] != "-" else b""
+        res = C.Result("C02")
+        lines = [None] * 4
+        try:
+            lines = C.run_driver(["c02 " + C.hx(a), "c02s " + C.hx(a), "c02 " + C.hx(b), "c02s " + C.hx(b)])
+        except C.DriverUnavailable:
+            pass
+        views = run_schedule(a, b, tuple(il["schedule"]))
+        check_interleaved(res, a, b, tuple(il["schedule"]), views, (lines[0], lines[1]), (lines[2], lines[3]))
+        alone = observe(bytes.fromhex(il[il["which"]]), False)
+        return {"schedule": il["schedule"], "which": il["which"], "violates": bool(res.violations),
+                "violations": [v["sig"] + ": " + v["what"] for v in res.violations],
+                "decoded_alone": _short(alone["obj"]), "decoded_interleaved": _short(views.get(il["which"])),
+                "model_disagrees": bool(res.disagreements)}
     data = bytes.fromhex(case["hex"]) if case.get("hex", "-") != "-" else b""
     o = observe(data, True)
     out = {"len": len(data), "status": o["status"], "exception": o["exc"], "depth": o["depth"], "activations": o["acts"], "names": o["names"],
